@@ -586,8 +586,8 @@ class RefJs:
             self.node(n, out, scopes, D)
 
     def dyn_nodes(self, ns, out, scopes, D, j, sname, real_v=True):
-        """`real_v`: do `slot:` references at this level read the slot values of the instance (the children function of the component and, through
-        its closure, the item functions of wx:for) or the parameter of a nested children function (wx:if branch, <block>), which nobody supplies"""
+        """`real_v`: do `slot:` references at this level read the slot values of the instance (only the children function of the component itself is
+        handed them) or the parameter of a nested function (wx:if branch, <block>, wx:for item), which nobody supplies"""
         js = eg.js_str
         for n in ns:
             k = n[0]
@@ -595,11 +595,17 @@ class RefJs:
                 if sname == "":
                     self.node(n, out, scopes, D)
             elif k == "elem":
+                # slot values reach the DIRECT content only; the element is not given a slot attribute (it is tied to the slot instance); its own
+                # `slot:` names are in scope for its `slot` attribute too
+                sv = (lambda nm: js("SV%d:%s" % (j, camel(nm)))) if real_v else None
+                inner = list(scopes)
+                for fam, name, v in n[2]:
+                    if fam == "slot:":
+                        inner.append((v[1] if v is not None else name, sv(name) if sv else js("SV:" + camel(name))))
                 slot = [a for a in n[2] if a[0] == "slot"]
-                want = "''" if not slot else f"TOSTR({self.val(slot[0][2], scopes, D)})"
+                want = "''" if not slot else f"TOSTR({self.val(slot[0][2], inner, D)})"
                 self.emit(f"if({want}==={js(sname)}){{")
-                # slot values reach the DIRECT content only; the element is not given a slot attribute (it is tied to the slot instance)
-                self.elem(n, out, scopes, D, slot_values=(lambda nm: js("SV%d:%s" % (j, camel(nm)))) if real_v else None, no_slot_attr=True)
+                self.elem(n, out, scopes, D, slot_values=sv, no_slot_attr=True)
                 self.emit("}")
             elif k == "block" and len(n) > 2:
                 # <block slot="name">: all of its content goes to that slot (and is rendered as ordinary content)
@@ -611,7 +617,7 @@ class RefJs:
                 _, lst, item, index, key, car = n
                 iv, xv = self.fresh("$it"), self.fresh("$ix")
                 self.emit(f"FOR({self.val(lst, scopes, D)},function({iv},{xv}){{")
-                self.dyn_nodes([car] if car[0] != "block" else car[1], out, scopes + [(item or "item", iv), (index or "index", xv)], D, j, sname, real_v)
+                self.dyn_nodes([car] if car[0] != "block" else car[1], out, scopes + [(item or "item", iv), (index or "index", xv)], D, j, sname, False)
                 self.emit("});")
             elif k == "if":
                 first = True
